@@ -18,6 +18,8 @@ mod rlex;
 mod rng;
 mod runner;
 mod rvalidate;
+mod sha;
+mod shape;
 mod skim;
 mod util;
 
@@ -27,10 +29,16 @@ fn engine_for(prop: &str) -> Option<&'static dyn Engine> {
     static LALR: engines::lalr_diff::LalrDiff = engines::lalr_diff::LalrDiff;
     static EMIT: engines::emit_run::EmitRun = engines::emit_run::EmitRun;
     static FRONT: engines::front::Front = engines::front::Front;
+    static TEXT: engines::text::Text = engines::text::Text;
+    static COMPILE: engines::compile::Compile = engines::compile::Compile;
+    static OSET: engines::oset::OsetEngine = engines::oset::OsetEngine;
     match prop {
         "C04" | "C11" | "C17" => Some(&LALR),
         "C01" | "C02" | "C03" => Some(&EMIT),
         "C07" | "C08" | "C09" | "C10" => Some(&FRONT),
+        "C12" | "C13" | "C14" | "C15" | "C16" => Some(&TEXT),
+        "C05" | "C06" => Some(&COMPILE),
+        "C18" => Some(&OSET),
         _ => None,
     }
 }
@@ -88,6 +96,7 @@ fn main() {
         }
         Some("selftest") => engines::selftest(),
         Some("oneshot") if args.len() >= 2 => engines::stress::oneshot_main(&args[1]),
+        Some("digest") if args.len() >= 2 => engines::text::digest_main(&args[1]),
         Some("stress-dump") if args.len() >= 3 => {
             let s = engines::stress::stress_case(Tier::Quick, seed_from_env(), args[1].parse().unwrap());
             std::fs::write(&args[2], &s.text).unwrap();
